@@ -27,7 +27,7 @@ def DState.expf (d : DState) (x : Rat) : Rat :=
   | none => -1
 
 def wOfName : String → Option W
-  | "u8" => some .u8 | "u16" => some .u16 | "u32" => some .u32 | "u64" => some .u64 | _ => none
+  | "u8" => some .u8 | "u16" => some .u16 | "u32" => some .u32 | "u64" => some .u64 | "big" => some .big | _ => none
 
 def wTag : W → String
   | .u8 => "u8" | .u16 => "u16" | .u32 => "u32" | .u64 => "u64" | .big => "big"
